@@ -133,6 +133,34 @@ def rule_who(R):
     R.ob("who/next-ping-value", ok, "note_outbound_activity sets next_ping = now + keepalive_send_interval (None when pings are off)", where=noa.span)
 
 
+def clause_pending_ping_states(R, key):
+    """a queued PINGREQ counts as pending from the moment it is queued until its flush completed -- in state Write (not
+    or partly written) *and* in state Flush (written, flush outstanding), for no other control packet, and no longer once
+    Sent.  A test that forgets the Flush state queues a second PINGREQ when the driving future is dropped at the pending
+    flush and the connection is driven again."""
+    f = R.f
+    try:
+        hp = roles.method(f, OUTBOUND, "has_pending_pingreq")
+    except AnchorLost:
+        R.undecide(key, "has_pending_pingreq not found")
+        return
+    t = roles.element_predicate_table(f, hp, "pending_control", None,
+                                      [("action", "mqtt_client::outbound::ControlAction"), ("state", "mqtt_client::outbound::SendState")])
+    bad = None
+    if t is None:
+        bad = "the per-entry test could not be tabulated"
+    else:
+        for (a, st), v in sorted(t.items()):
+            want = (a == "PingReq" and st in ("Write", "Flush"))
+            if st == "Sent" and a == "PingReq":
+                want = False
+            if v is None or v != want:
+                bad = bad or "an entry with action %s in state %s counts as %s" % (a, st, {True: "pending", False: "not pending", None: "undetermined"}[v])
+    R.ob(key, bad is None,
+         "has_pending_pingreq: a PINGREQ entry is pending exactly in the states Write and Flush%s" % ("" if bad is None else " — " + bad),
+         where=hp.span)
+
+
 def rule_due(R):
     f = R.f
     cm = roles.conn_methods(f)
@@ -262,6 +290,7 @@ def rule_due(R):
         okh = roles.membership_loop(hp, "pending_control", pingreq_hit)
     R.ob("due/pending-lookup", okh, "a PINGREQ that is queued but not yet sent is found by a lookup in the control queue "
          "(Outbound::has_pending_pingreq)", where=hp.span if hp is not None else sq_b.span)
+    clause_pending_ping_states(R, "due/pending-states")
     mq_b, mq = cm["maybe_queue_pingreq"]
     qcs = outq.calls_to(f, mq, qc)
     edges = []
